@@ -1,3 +1,4 @@
 import LouModel
 import LouProofs.Lemmas.PosMap
 import LouProofs.C07
+import LouProofs.C20
